@@ -61,3 +61,8 @@ pub assume_specification<T: Clone> [ <[T] as std::borrow::ToOwned>::to_owned ] (
 // Rust guarantee: a Vec never holds more than isize::MAX bytes
 #[verifier::external_body]
 pub proof fn axiom_vec_max(v: &Vec<u8>) ensures v@.len() <= 0x7fff_ffff_ffff_ffff { }
+
+pub assume_specification<T: Clone> [ <[T]>::to_vec ] (s: &[T]) -> (r: Vec<T>)
+    ensures r@ == s@;
+pub assume_specification<T, E> [ Result::<T, E>::unwrap_or ] (r: Result<T, E>, default: T) -> (v: T)
+    ensures v == (match r { Ok(x) => x, Err(_) => default });
